@@ -42,7 +42,7 @@ def contains(d, s):
         return s in d
     subdict = d
     for key in levels[:-1]:
-        if key not in subdict:
+        if not isinstance(subdict, dict) or key not in subdict:
             return False
         subdict = subdict[key]
     last_val = levels[-1]
